@@ -43,7 +43,8 @@ META = {
 }
 
 PRES_PAIRS = [("own", "own"), ("view_in_buffer", "view_in_buffer"), ("strided", "own"), ("own", "strided"),
-              ("readonly", "readonly"), ("view_in_buffer", "own"), ("reversed", "strided"), ("strided", "reversed")]
+              ("readonly", "readonly"), ("view_in_buffer", "own"), ("reversed", "strided"), ("strided", "reversed"),
+              ("record_field", "own"), ("record_field_reversed", "record_field")]
 
 
 def shards(tier):
@@ -83,6 +84,7 @@ class StderrWatch:
 
 
 REPORT = re.compile(r"AddressSanitizer|runtime error:|UndefinedBehaviorSanitizer")
+MISALIGNED = re.compile(r"runtime error: (load|store) of misaligned address")
 
 
 def classify_report(text):
@@ -161,7 +163,12 @@ class Guard:
             ctx.count("insitu_workload_raised(not the kernels)")
         if self.watch is not None:
             text = self.watch.delta()
-            if text and REPORT.search(text):
+            other_ub = [ln for ln in (text or "").splitlines() if "runtime error:" in ln and not MISALIGNED.search(ln)]
+            if text and MISALIGNED.search(text) and not other_ub and not re.search(r"AddressSanitizer", text):
+                # an element of a packed record field is inside its array but not 4-byte aligned: UBSan's alignment
+                # report says nothing about bounds (C09's matter) - evidence only
+                ctx.count("ubsan:misaligned_element_loads(not a bounds matter)")
+            elif text and REPORT.search(text):
                 in_kernel, sig = classify_report(text)
                 if in_kernel:
                     ctx.violation("asan:" + sig, text[:1800], case)
@@ -205,7 +212,9 @@ def run_pair(ctx, g, so, a, b, sa, sb, pl, pr):
                 # the words around / between the elements of a view hold sentinels that occur in neither
                 # operand: a sentinel in the output proves a read outside the input arrays (inside the
                 # base buffer, where neither red zones nor memoryview bounds checks can see it)
-                leaked = [v for v in (got or []) if v in K.SENTINELS and v not in sa and v not in sb]
+                # (more generally: these kernels only ever copy operand elements, so ANY output value that is in
+                # neither operand was read from memory that is not an element of the operands)
+                leaked = [v for v in (got or []) if v not in sa and v not in sb]
                 if leaked:
                     ctx.violation("read-outside-input:sentinel-in-output:%s:%s/%s" % (name, pl, pr),
                                   "%s returned %r: buffer words that are not elements of the operands were read" % (name, [hex(v) for v in leaked[:3]]), case)
@@ -310,12 +319,22 @@ def run_shard(ctx):
                 if rng.random() < 0.15:
                     x = numpy.unique(numpy.concatenate([x, numpy.array([top], dtype=U32)]))
                 if rng.random() < 0.3 and len(x):
-                    x = present(x.tolist(), "view_in_buffer", rng)
+                    x = present(x.tolist(), K.pickone(rng, ["view_in_buffer", "view_in_buffer", "record_field", "record_field_reversed",
+                                                            "strided", "reversed"]), rng)
                 arrays.append(x)
             case = {"op": "many", "arrays": [x.copy() for x in arrays]}
             nonempty = sum(1 for x in arrays if len(x))
-            g.call("many_calls", so.set_union_merge_many, (arrays,), case, nonempty != len(arrays) or k == 0,
-                   ("many", tuple(x.tobytes() for x in arrays)))
+            res = g.call("many_calls", so.set_union_merge_many, (arrays,), case, nonempty != len(arrays) or k == 0,
+                         ("many", tuple(x.tobytes() for x in arrays)))
+            if isinstance(res, numpy.ndarray):
+                allowed = set()
+                for x in arrays:
+                    allowed.update(x.tolist())
+                foreign = [v for v in res.tolist() if v not in allowed]
+                if foreign:
+                    ctx.violation("read-outside-input:foreign-value-in-output:many",
+                                  "set_union_merge_many returned %r, which occur in none of its operands: memory that is not an "
+                                  "element of the operands was read" % [hex(v) for v in foreign[:3]], case)
             if n == 2:
                 ctx.sample({"variant": s["variant"], "multiway": [x.tolist() for x in arrays]})
             if ctx.full():
